@@ -100,6 +100,11 @@ type Ctx struct {
 	CurStep  int
 	stopOnV  bool
 	MaxViols int
+	// UnhashedViolations: record violations without an event-log line. For
+	// oracles whose verdict is an observation that varies between identical
+	// executions (the race detector's bounded history): the execution's event
+	// log, and its hash, must not depend on what was observed about it.
+	UnhashedViolations bool
 }
 
 func newCtx(t *testing.T, p *Plan, keepLog bool) *Ctx {
@@ -159,7 +164,9 @@ func (c *Ctx) SetSample(s interface{}) {
 // Violate records an oracle failure. Returns true when the run should stop.
 func (c *Ctx) Violate(prop, oracle, signature, format string, a ...interface{}) bool {
 	msg := fmt.Sprintf(format, a...)
-	c.Logf("VIOLATION %s %s %s", prop, oracle, signature)
+	if !c.UnhashedViolations {
+		c.Logf("VIOLATION %s %s %s", prop, oracle, signature)
+	}
 	for _, v := range c.out.Violations {
 		if v.Signature == signature && v.Property == prop {
 			return len(c.out.Violations) >= c.MaxViols
